@@ -194,6 +194,16 @@ fn check_monitor(h: &RepoHandle, what: &str) -> Option<String> {
     monitor(&hot, &cold, &|id| tp.contains(id)).map(|m| format!("{m}-after-{what}"))
 }
 
+fn unwarmed_cold_read(cold: &MemBackend) -> Option<&'static str> {
+    let g = cold.inner.lock().unwrap();
+    for (t, id, _) in &g.reads {
+        if *t == FileType::Pack && !g.warm_log.iter().any(|(wt, wid)| *wt == FileType::Pack && wid == id) {
+            return Some("oracle-fail:cold-pack-read-without-warm-up-request");
+        }
+    }
+    None
+}
+
 pub fn repo_level(seed: u64, read_data_check: bool) -> String {
     let mut rng = Rng::new(seed);
     let cold = MemBackend::named("cold");
@@ -207,7 +217,8 @@ pub fn repo_level(seed: u64, read_data_check: bool) -> String {
     for step in 0..steps {
         let Ok(repo) = h.open_with(&opts) else { return format!("oracle-fail:open-step{step}") };
         let what;
-        match rng.below(6) {
+        cold.clear_log();
+        match rng.below(7) {
             0 | 1 | 2 => {
                 what = "backup";
                 let mut entries = Vec::new();
@@ -239,11 +250,22 @@ pub fn repo_level(seed: u64, read_data_check: bool) -> String {
             4 => {
                 what = "prune";
                 // repack everything that can be repacked: reads data packs from the cold store
-                let popts = PruneOptions::default().repack_all(rng.chance(1, 2)).instant_delete(true);
+                // (on a hot/cold repository `repack_cacheable_only` defaults to true: data packs would never be repacked and
+                // the cold store never read; switch it off in most runs)
+                let popts = PruneOptions::default().repack_all(rng.chance(2, 3)).instant_delete(true).repack_cacheable_only(!rng.chance(3, 4));
                 let Ok(plan) = repo.prune_plan(&popts) else { return format!("oracle-fail:prune-plan-step{step}") };
                 cold.inner.lock().unwrap().warm.clear();
                 if repo.prune(&popts, plan).is_err() {
                     return format!("oracle-fail:prune-fails-on-cold-strict-store-step{step}");
+                }
+            }
+            5 => {
+                what = "repair-index";
+                // read_all: the header of every pack is read from the cold store (ranged reads with cacheable = false)
+                let ropts = rustic_core::RepairIndexOptions::default().read_all(rng.chance(2, 3));
+                cold.inner.lock().unwrap().warm.clear();
+                if repo.repair_index(&ropts, false).is_err() {
+                    return format!("oracle-fail:repair-index-fails-on-cold-strict-store-step{step}");
                 }
             }
             _ => {
@@ -268,6 +290,10 @@ pub fn repo_level(seed: u64, read_data_check: bool) -> String {
         }
         if let Some(m) = check_monitor(&h, what) {
             return m;
+        }
+        // every pack read that reached the cold store during the command was requested to be warmed up (by that command)
+        if let Some(m) = unwarmed_cold_read(&cold) {
+            return format!("{m}-during-{what}");
         }
         // results as on a single store: check clean, every snapshot reads back; restore needs data packs from cold
         cold.inner.lock().unwrap().warm.clear();
